@@ -27,7 +27,7 @@ class SchedSpec:
         self.kwargs = kwargs
         self.config_space = config_space
         self.notes = notes or {}
-        self.pause_resume = family in ("hb-promotion", "hb-pasha", "hb-cost", "sync-hb", "dehb")
+        self.pause_resume = family in ("hb-promotion", "hb-pasha", "hb-cost", "hb-rush-promotion", "sync-hb", "dehb")
         self.multi_fidelity = family not in ("fifo-random", "fifo-grid", "rea", "fifo-bo")
 
     def describe(self):
@@ -101,7 +101,8 @@ def gen_sched(
             pass
         return SchedSpec(fam, "FIFOScheduler", kw, cs, notes)
     if fam.startswith("hb-"):
-        typ = {"hb-stopping": "stopping", "hb-promotion": "promotion", "hb-pasha": "pasha", "hb-cost": "cost_promotion"}[fam]
+        typ = {"hb-stopping": "stopping", "hb-promotion": "promotion", "hb-pasha": "pasha", "hb-cost": "cost_promotion",
+               "hb-rush-stopping": "rush_stopping", "hb-rush-promotion": "rush_promotion"}[fam]
         kw = dict(base, searcher="random", type=typ, resource_attr=resource_attr)
         kind = t.weighted([(3, "rf"), (1, "incr")])
         grace = 1 if max_t <= 2 else t.weighted([(4, 1), (1, 2)])
@@ -117,7 +118,12 @@ def gen_sched(
                 typ = "promotion"
                 kw["type"] = typ
                 fam = "hb-promotion"
-        if typ != "pasha":
+        if typ.startswith("rush"):
+            # RUSH (opt-in family): one initial configuration (the mid-point), which is the threshold candidate or not
+            kw["points_to_evaluate"] = [{}]
+            kw["rung_system_kwargs"] = {"num_threshold_candidates": t.int(0, 1)}
+            kw["brackets"] = 1
+        elif typ != "pasha":
             b = t.weighted([(3, 1), (1, 2), (1, 3)])
             kw["brackets"] = b
             if b > 1:
